@@ -11,18 +11,18 @@ import (
 
 // Obligation is one named proof goal: prefix of the script + reach + goal.
 type Obligation struct {
-	Name   string
-	Kind   string // post, pre, inv-entry, inv-preserve, safety, frame, assert, cover
-	Func   string
-	Prefix int    // number of script lines that form the context
-	Reach  string // path condition
-	Goal   string // formula to prove under reach
-	Cover  bool   // if true, the query (reach) must be SAT
-	Src    string // source of the clause
-	Pos    string
-	Side   bool // safety side condition (not a property obligation)
+	Name      string
+	Kind      string // post, pre, inv-entry, inv-preserve, safety, frame, assert, cover
+	Func      string
+	Prefix    int    // number of script lines that form the context
+	Reach     string // path condition
+	Goal      string // formula to prove under reach
+	Cover     bool   // if true, the query (reach) must be SAT
+	Src       string // source of the clause
+	Pos       string
+	Side      bool // safety side condition (not a property obligation)
 	TimeoutMs int
-	Splits []string // exhaustive case split (edge conditions of the nearest control-flow merge); used when the plain query is undecided
+	Splits    []string // exhaustive case split (edge conditions of the nearest control-flow merge); used when the plain query is undecided
 }
 
 // State is the symbolic heap at a program point.
@@ -413,6 +413,10 @@ func (g *Gen) heapWF(h, elemSort, base string, global bool) {
 		if strings.HasPrefix(elemSort, "(Array ") && arrayElemSort(elemSort) == SRef {
 			ks := arrayKeySort(elemSort)
 			f = fmt.Sprintf("(forall ((a Ref) (k %s)) (! (<= (rootOid (select (select %s a) k)) %s) :pattern ((select (select %s a) k))))", ks, h, base, h)
+		} else if strings.HasPrefix(elemSort, "(Array ") && arrayElemSort(elemSort) == SSlice {
+			// map values that are slices: their backing arrays are not newer than the base either
+			ks := arrayKeySort(elemSort)
+			f = fmt.Sprintf("(forall ((a Ref) (k %s)) (! (<= (rootOid (sarr (select (select %s a) k))) %s) :pattern ((select (select %s a) k))))", ks, h, base, h)
 		} else {
 			return
 		}
